@@ -395,7 +395,7 @@ func init() {
 		},
 		Phases: []Phase{
 			{Name: "hostile atom pairs in 6 contexts", Exhaustive: true, N: Fixed(n*n*6, n*n*6), Run: c06Contexts},
-			{Name: "random tables", N: Fixed(5000, 300000), Run: c06Random},
+			{Name: "random tables", N: Fixed(5000, 2000000), Run: c06Random},
 		},
 	})
 }
